@@ -83,6 +83,9 @@ def pool():
     add("bin-att", {"config": {"style": "att"}, "pattern": [{"mov": ["%rax"]}]}, inp="elf")
     add("bin-intel", {"config": {"style": "intel"}, "pattern": [{"mov": ["%rax"]}]}, inp="elf")
     add("bin-nostyle", {"pattern": [{"mov": ["%rax"]}]}, inp="elf")
+    add("bin-intel-text", {"config": {"style": "intel", "sections": [".text"]}, "pattern": ["hlt"]}, inp="elf", mode=L)
+    add("bin-intel-init", {"config": {"style": "intel", "sections": [".init"]}, "pattern": ["hlt"]}, inp="elf", mode=L)
+    add("bin-intel-init-push", {"config": {"style": "intel", "sections": [".init"]}, "pattern": ["push"]}, inp="elf", mode=L)
     # captures
     add("cap-0", {"pattern": ["push", "push", "add"]})
     add("cap-op1", {"pattern": [{"push": ["&a"]}, {"push": ["&a"]}]}, mode=L)
@@ -341,6 +344,28 @@ def run_history(ctx, ops, mats, fresh, seq, label, ws=None, last_interleaved_wit
     return True
 
 
+def library_rewrite_probe(ctx, ws):
+    """One rule object asked twice while a macro file given to it is rewritten in between (an editor saving the library): the second
+    answer is what a fresh object gives for the file as it is now - "the result depends on the macro files", as they are when the
+    regex is produced."""
+    lib = ws.write("rewritten_lib.yaml", real.dump_rule({"macros": [{"name": "@frame", "pattern": [{"push": ["@reg"]}]}, {"name": "@reg", "pattern": "%rbp"}]}))
+    rp = ws.write("rewritten_rule.yaml", real.dump_rule({"pattern": ["@frame", {"mov": ["%rsp", "@reg"]}]}))
+    try:
+        y = real.y2r.Yaml2Regex(rp, macros_from_terminal=[lib])
+        r1 = y.produce_regex()
+        ws.write("rewritten_lib.yaml", real.dump_rule({"macros": [{"name": "@frame", "pattern": [{"$and": [{"push": ["@reg"]}, "nop"]}]}, {"name": "@reg", "pattern": "%rbx"}]}))
+        r2 = y.produce_regex()
+        fresh = real.y2r.Yaml2Regex(rp, macros_from_terminal=[lib]).produce_regex()
+    except Exception as e:  # noqa: BLE001
+        ctx.disagreement({"same_stat": True, "library_rewrite": True}, f"library rewrite probe raised {type(e).__name__}: {e}")
+        return
+    ctx.ran(3)
+    ctx.event("library_rewritten_between_two_compilations_of_one_object")
+    if r2 != fresh or r1 == r2:
+        ctx.disagreement({"same_stat": True, "library_rewrite": True},
+                         f"a rule object asked again after its macro file was rewritten produces {r2[:160]!r}; a fresh object produces {fresh[:160]!r} (first answer {r1[:80]!r})")
+
+
 def run_shard(ctx):
     ws = real.Workspace()
     if ctx.shard % 4 == 1:
@@ -348,6 +373,7 @@ def run_shard(ctx):
         from jv import strata
         strata.same_stat_probe(ctx, ws, 3, binary=False)
         strata.same_stat_probe(ctx, ws, 3, binary=True)
+        library_rewrite_probe(ctx, ws)
     ops = pool()
     nfixed = len(ops)
     ops += random_ops(ctx.rng, 10 if ctx.tier == "quick" else 24)
@@ -377,6 +403,8 @@ def run_shard(ctx):
 
 
 def replay(ctx, case):
+    if case.get("library_rewrite"):
+        return library_rewrite_probe(ctx, real.Workspace())
     if case.get("same_stat"):
         from jv import strata
         return strata.same_stat_probe(ctx, real.Workspace(), 8, binary=bool(case.get("binary")))
